@@ -79,6 +79,9 @@ def culprits(tr: dict, clause: str) -> list[str]:
         rel = lost | {PAR[p] for p in lost if PAR[p]}
         if not evs[-1]["r1"]:
             labels.append("sandbox-root-removed")
+        ex = evs[-1]
+        if any(_state(ex["fs1"][p]) != _state(ex["fs0"][p]) and not _owned(ex["cr0"], p) for p in lost):
+            labels.append("exit-removed-unrecorded-path")
         compromised: set[str] = set()
         for e in evs[:-1]:
             hit = []
@@ -99,6 +102,9 @@ def culprits(tr: dict, clause: str) -> list[str]:
         if evs[-1]["x1"]:
             labels.append("path-outside-model-left")
         for x in sorted(left):
+            if _owned(evs[-1]["cr0"], x):
+                labels.append("recorded-but-not-removed-by-exit")
+                continue
             for e in reversed(evs[:-1]):
                 if e["fs1"][x]["k"] == "absent" or _owned(e["cr1"], x):
                     break
